@@ -759,3 +759,19 @@ def run(ctx):
     # loading (rule of C13, shared)
     from .c13 import flag_arm_keeps_array
     flag_arm_keeps_array(ctx, 'C17.K2.plain')
+    # classes that store a grid write it as an emg3d TensorMesh (the
+    # documented workaround for plain discretize meshes, whose own
+    # dictionary the readers do not understand): siblings must agree
+    from ..core.template import has as _has
+    for rel_, cname in (('emg3d/models.py', 'Model'),
+                        ('emg3d/fields.py', 'Field')):
+        m_ = ctx.repo.mod(rel_)
+        td_ = m_.method(cname, 'to_dict')
+        ctx.check('C17.K2.plain', f'{cname}.to_dict writes its grid as an '
+                  'emg3d mesh', _has(
+                      'meshes.TensorMesh(self.grid.h, self.grid.origin)'
+                      '.to_dict()', td_),
+                  f'{cname}.to_dict stores `self.grid.to_dict()` of whatever '
+                  'mesh class the grid is: for a discretize mesh that is a '
+                  'foreign dictionary, which save rejects or load cannot '
+                  'turn back into the object', ctx.where(m_, td_))
